@@ -13,6 +13,7 @@ def replay(case):
 
 def run(tier):
     run = Run('C15', tier)
+    run.exhaustive = False     # contains sampled parts (seeds / draw streams / a command table), see explanation
     run.explanation = (
         'Engine X with the random module replaced by the nondeterministic stub (all draws unseeded = arbitrary): '
         'make_graph_from_spec is called with solver-chosen numeric arguments from below to above the legal range and every '
